@@ -30,7 +30,7 @@ RULE = (
 )
 ASSUMPTIONS = ["no hash collisions among the generated inputs", "digest texts are sorted as text (the order the definition's 'sorted' refers to)"]
 BUDGET = {"quick": (300, 4), "thorough": (90000, 16)}
-REQUIRED = ["rename_file", "rename_dir", "edit", "c4", "multi_format", "empty_dir", "ignored_entry", "permuted", "nested_history", "user_pattern", "path_pattern_depth>=2"]
+REQUIRED = ["rename_file", "rename_dir", "edit", "c4", "multi_format", "empty_dir", "ignored_entry", "permuted", "nested_history", "user_pattern", "path_pattern_depth>=2", "edited_file_new_format"]
 
 
 @st.composite
@@ -280,6 +280,18 @@ def run_case(scn, ctx):
             if ch["kind"] == "edit":
                 w.put(path, w.files[path] + b"+edit")
                 ctx.event("edit")
+                # on the existing history: recorded format(s) fail for the edited file, a new format is requested as well;
+                # the directory hashes of every requested format must still be the definition over the current bytes
+                newf = [f for f in refhash.CLI_FORMATS if f not in fmts][:1]
+                if newf:
+                    allf = fmts + newf
+                    res = w.create("R", allf)
+                    holder.append(res)
+                    require(res.exc is None and res.exit_code == 11, "create", "create on an edited file: " + res.brief(), res)
+                    tree_e = w.subtree("R")
+                    ref_e = {f: refhash.dirhash(tree_e, f)[2] for f in allf}
+                    compare(manifest_table(w.read_history("R")[-1][2]), ref_e, allf, "manifest-edited-file-new-format", res, "create (edited file, recorded + new format)")
+                    ctx.event("edited_file_new_format")
             else:
                 new = posixpath.join(posixpath.dirname(path), ch["new"])
                 if new == path or new in w.files or new in w.dirs:
